@@ -143,7 +143,7 @@ Definition groups := fold_left (fun gs c => group_add (key c) c gs) cands [].
 Definition find : list (list nat * list vec * quat) :=
   flat_map (fun kg => let good := flat_map (fun c => match accept c with Some q => [(c,q)] | None => [] end) (snd kg) in
      match good with [] => [] | _ =>
-       let '(c,q) := nth (pick (length good)) good ([], (0,0,0,1)) in
+       let '(c,q) := nth (Nat.modulo (pick (length good)) (length good)) good ([], (0,0,0,1)) in
        [(map (fun gx => Nat.modulo (fst gx) nS) c, map snd c, q)] end) groups.
 End Find.
 
